@@ -81,6 +81,8 @@ def element(draw, idx, parallel_bias=True, errors=False, allow_completed_by=True
         named = draw(st.integers(0, n - 1))
         for j in range(n):
             long_running = completed_by is not None and ((completed_by == "name" and j != named) or (completed_by == "any" and j != named))
+            if long_running and completed_by == "name" and draw(st.integers(0, 3)) == 0:
+                long_running = False  # a finite sibling that may well finish before the completing task does
             t = draw(leaf(f"e{idx}t{j}", long_running=long_running, max_clients=3, errors=errors))
             if completed_by is not None and not long_running and t["mode"] == "iterations" and draw(st.booleans()):
                 # the completing task itself: several co-located clients that finish at different times
@@ -112,6 +114,37 @@ def element(draw, idx, parallel_bias=True, errors=False, allow_completed_by=True
 
 
 @st.composite
+def two_completed_by_elements(draw, errors=False):
+    """
+    scenario template (state carried from one completed-by element to the next): the completing task of the first element runs on
+    several workers and finishes at different times while a finite sibling finishes in between, so the element may end at its barrier
+    without a completion broadcast; the second element has a completing task with fewer clients, a long-running partner and - because
+    it needs fewer clients - idle workers that reach the join point at once
+    """
+    def req(service):
+        return {"pre": 0, "wire": [[0, service]], "post": 0, "outcome": "ok", "shape": "dict", "weight": 1, "unit": "ops"}
+
+    fast = draw(st.sampled_from([1 / 64, 1 / 8]))
+    slow = draw(st.sampled_from([1.0, 2.5]))
+    named1 = {"name": "e0t0", "clients": draw(st.sampled_from([2, 2, 3])), "stride": 1, "mode": "iterations", "warmup_iterations": None,
+              "iterations": draw(st.integers(2, 4)), "requests": [req(fast), req(slow), req(slow)]}
+    sibling = {"name": "e0t1", "clients": 1, "stride": 1, "mode": "iterations", "warmup_iterations": None, "iterations": draw(st.integers(1, 3)),
+               "requests": [req(draw(st.sampled_from([1 / 8, 0.5])))]}
+    named2 = {"name": "e1t0", "clients": draw(st.integers(1, named1["clients"] - 1)), "stride": 1, "mode": "iterations", "warmup_iterations": None,
+              "iterations": draw(st.integers(3, 6)), "requests": [req(draw(st.sampled_from([0.5, 1.0])))]}
+    partner = draw(leaf("e1t1", long_running=True, max_clients=1, errors=errors))
+    out = [
+        {"parallel": [named1, sibling], "clients": None, "completed_by": "e0t0"},
+        {"parallel": [named2, partner], "clients": None, "completed_by": "e1t0"},
+    ]
+    if draw(st.booleans()):
+        out.insert(0, draw(leaf("pre", max_clients=2, errors=errors)))
+    if draw(st.booleans()):
+        out.append(draw(leaf("post", max_clients=2, errors=errors)))
+    return out
+
+
+@st.composite
 def race_case(draw, min_elements=1, max_elements=4, errors=False, allow_completed_by=True, allow_overcommit=True, max_hosts=3,
               avoid_named_wrap=False, preemption=True):
     n = draw(st.integers(min_elements, max_elements))
@@ -119,8 +152,13 @@ def race_case(draw, min_elements=1, max_elements=4, errors=False, allow_complete
         draw(element(i, errors=errors, allow_completed_by=allow_completed_by, allow_overcommit=allow_overcommit, avoid_named_wrap=avoid_named_wrap))
         for i in range(n)
     ]
+    template = allow_completed_by and max_elements >= 2 and draw(st.integers(0, 9)) == 0
+    if template:
+        schedule = draw(two_completed_by_elements(errors))
     n_hosts = draw(st.sampled_from([1, 1, 2, 2, 3][: 2 * max_hosts - 1]))
     hosts = [draw(st.integers(1, 4)) for _ in range(n_hosts)]
+    if template:
+        hosts = [draw(st.sampled_from([3, 4]))] * n_hosts  # every client gets a worker of its own
     # all hosts are assumed to have the same number of cores (Rally uses the coordinator's core count for every host)
     hosts = [hosts[0]] * n_hosts
     return {
